@@ -203,7 +203,11 @@ def admix_case(draw):
         p = draw(st.integers(0, nd - 1))
         f = draw(st.sampled_from([0.5, 0.9, 1.1, 2.0]))        # one factor for the whole row, so that it sums to f, not 1
         rows[p] = [v * f for v in rows[p]]
-    return dict(c, props=rows, kind=kind)
+    # per-population grids in half the cases (seed C05h: population 3's frequency read from population 2's grid in the 4-D path)
+    ag = c['axis_grids']
+    if draw(st.booleans()):
+        ag = [draw(st.integers(0, 2)) for _ in range(nd)]
+    return dict(c, props=rows, kind=kind, axis_grids=ag)
 
 
 @REG.relation('R4-admix-props', strategy=admix_case, quick=(500, 16), thorough=(8000, 16))
@@ -212,28 +216,29 @@ def r4(c, rec):
     rows not summing to one are rejected."""
     xx, phi = build(c)
     nd, ns = c['nd'], c['ns']
-    rec.case(c, c['kind'] != 'identity' and c['grid']['kind'] != 'uniform', ['dim=%d' % nd, c['kind']])
+    grids, perpop = grids_of(c, xx)
+    rec.case(c, c['kind'] != 'identity' and c['grid']['kind'] != 'uniform', ['dim=%d' % nd, c['kind']] + (['per-population grids'] if perpop else []))
     props = tuple(tuple(r) for r in c['props'])
     if c['kind'] == 'bad':
         try:
-            dadi.Spectrum.from_phi(phi, ns, [xx] * nd, admix_props=props)
+            dadi.Spectrum.from_phi(phi, ns, grids, admix_props=props)
         except ValueError:
             return
         except Exception as e:
             raise Violation('admixture proportions with a row not summing to 1 raised %s, not ValueError' % type(e).__name__)
         raise Violation('admixture proportions %r (a row does not sum to 1) were accepted' % (props,))
     with dadi_call('from_phi(admix_props)', path='admix', dim=nd):
-        fs = dadi.Spectrum.from_phi(phi, ns, [xx] * nd, mask_corners=False, admix_props=props)
-    exp = S.admix_spectrum(phi, ns, [xx] * nd, props)
+        fs = dadi.Spectrum.from_phi(phi, ns, grids, mask_corners=False, admix_props=props)
+    exp = S.admix_spectrum(phi, ns, grids, props)
     require_close(data_of(fs), exp, 1e-10 * max(ns), 'admix_props spectrum vs oracle', rec, key='admix', atol=1e-14 * np.abs(exp).max(),
                   path='admix', dim=nd)
-    require_close(data_of(fs).sum(), float(S.contract(phi, [S.trapz_weights(xx)[None, :]] * nd).ravel()[0]), 1e-10,
+    require_close(data_of(fs).sum(), float(S.contract(phi, [S.trapz_weights(g)[None, :] for g in grids]).ravel()[0]), 1e-10,
                   'admixed sampling probabilities sum to one (total = trapezoid mass)', rec, key='admix total', atol=1e-300)
     if c['kind'] == 'identity':
         with dadi_call('from_phi(direct)'):
-            d = dadi.Spectrum.from_phi(phi, ns, [xx] * nd, mask_corners=False, force_direct=True)
+            d = dadi.Spectrum.from_phi(phi, ns, grids, mask_corners=False, force_direct=True)
         require_close(data_of(fs), data_of(d), 1e-11, 'identity admix_props vs direct path', rec, key='admix identity', atol=1e-300)
-    require(fs.extrap_x == xx[1], 'extrap_x not set on the admix_props path')
+    require(perpop or fs.extrap_x == xx[1], 'extrap_x not set on the admix_props path')
 
 
 @st.composite
